@@ -1,13 +1,13 @@
 SPECIFICATION Spec
 CONSTANTS
-  MaxStim = 3
+  MaxStim = 2
   MaxPings = 2
   AsCoded = FALSE
   BadId = FALSE
   AnyPort = FALSE
-  Layout = 1
-  Pingers = {1, 3}
-  Toggle = {2, 4, 5}
+  Layout = 3
+  Pingers = {1, 2}
+  Toggle = {2, 3}
 INVARIANT CacheEntriesTruthful
 INVARIANT UpImpliesPower
 INVARIANT OwedOnlyByOwner
